@@ -22,14 +22,15 @@ def main():
   checks = []
   na = []
   for pid in ALL:
-    path = os.path.join(common.VERIF, 'mmverif', 'props', pid.lower() + '.py')
+    from mmverif.props import registry
     if pid in NOT_APPLICABLE:
       na.append({'property_id': pid, 'reason': NOT_APPLICABLE[pid]})
       continue
-    if not os.path.exists(path):
+    try:
+      mod = registry.get(pid)
+    except KeyError:
       na.append({'property_id': pid, 'reason': NOT_YET})
       continue
-    mod = importlib.import_module('mmverif.props.' + pid.lower())
     m = mod.MANIFEST
     checks.append({
         'property_id': pid,
